@@ -854,6 +854,36 @@ pub fn run_c17_pragma(tier: &str, _seed: u64) -> CheckResult {
             forms.push((format!("slashes-inside-block-comment:{}{}", op, v), format!("pragma solidity /* see https://x.y/{} */ {}{} /* was {} // bumped ^ */;\n", other, op, v, other)));
         }
     }
+    // white space inside the pragma statement (no comment): explicit (variant, twin) pairs with the same number of line breaks
+    let mut ws_pairs: Vec<(String, String, String)> = vec![];
+    for (a, b, c) in &versions {
+        let v = format!("{}.{}.{}", a, b, c);
+        for op in ["", "^", ">="] {
+            ws_pairs.push((format!("tab-between-operator-and-version:{}{}", op, v), format!("pragma solidity {}\t{};\n", op, v), format!("pragma solidity {}{};\n", op, v)));
+            ws_pairs.push((format!("newline-between-operator-and-version:{}{}", op, v), format!("pragma solidity {}\n{};\n", op, v), format!("pragma solidity\n{}{};\n", op, v)));
+            ws_pairs.push((format!("crlf-between-operator-and-version:{}{}", op, v), format!("pragma solidity {}\r\n{};\n", op, v), format!("pragma solidity\n{}{};\n", op, v)));
+            ws_pairs.push((format!("spaces-around-version:{}{}", op, v), format!("pragma   solidity   {}   {}   ;\n", op, v), format!("pragma solidity {}{};\n", op, v)));
+        }
+    }
+    for (fname, stmt, plain_stmt) in &ws_pairs {
+        for (bname, body) in &bodies {
+            let variant = format!("{}{}", stmt, body);
+            let plain = format!("{}{}", plain_stmt, body);
+            for d in &dets {
+                r.evaluations += 1;
+                let (ok, msg) = c17_pragma_pair(*d, &variant, &plain);
+                if !ok {
+                    r.violate(
+                        &format!("c17:white-space-in-pragma-changes-findings:{}:{}", d.name(), fname.split(':').next().unwrap_or("")),
+                        &format!("{} ({}, body {})", msg.replace("with the comment in the pragma statement", "with the white space in the pragma statement").replace("without it", "with single spaces"), fname, bname),
+                        vec!["c17-pragma-case".into(), d.name().to_string(), format!("@src:{}", variant), format!("@src:{}", plain)],
+                        "the findings of the same text with the pragma value written with single spaces".into(),
+                        msg.clone(),
+                    );
+                }
+            }
+        }
+    }
     forms.push(("experimental-with-comment".into(), "pragma experimental /* 0.4.11 ^ */ ABIEncoderV2;\npragma solidity 0.8.10;\n".into()));
     for (fname, stmt) in &forms {
         let plain_stmt = oracle::without_comments(stmt);
